@@ -6,15 +6,24 @@
 (***************************************************************************)
 EXTENDS LoadUniverse, Json
 
-CONSTANTS MaxLoads, KnownDev
+CONSTANTS MaxLoads, KnownDev,
+          PrefixIds     \* which prefixes of LoadUniverse!Prefixes the histories start from
 
-VARIABLES st, hist
-lvars == <<st, hist>>
+VARIABLES st, hist, npre
+lvars == <<st, hist, npre>>
 
-LInit == st = EmptySchema /\ hist = <<>>
+RECURSIVE RunPrefix(_, _, _, _)
+RunPrefix(s, docs, i, acc) ==
+  IF i > Len(docs) THEN [s |-> s, hist |-> acc]
+  ELSE LET r == LoadResult(s, docs[i], {}) IN
+       RunPrefix(r.s, docs, i + 1, Append(acc, [doc |-> docs[i], ok |-> r.ok, why |-> r.why, off |-> r.off, canon |-> Canon(r.s)]))
+
+LInit == \E p \in PrefixIds :
+           LET r == RunPrefix(EmptySchema, Prefixes[p], 1, <<>>) IN st = r.s /\ hist = r.hist /\ npre = Len(r.hist)
 Load(doc) ==
   LET r == LoadResult(st, doc, {}) IN
-  /\ Len(hist) < MaxLoads
+  /\ Len(hist) < npre + MaxLoads
+  /\ UNCHANGED npre
   /\ st' = r.s
   /\ hist' = Append(hist, [doc |-> doc, ok |-> r.ok, why |-> r.why, off |-> r.off, canon |-> Canon(r.s)])
 LNext == \E doc \in LoadDocs : Load(doc)
@@ -29,5 +38,5 @@ RECURSIVE Replay(_, _, _)
 Replay(s, h, i) == IF i > Len(h) THEN s ELSE Replay(IF h[i].ok THEN LoadResult(s, h[i].doc, {}).s ELSE s, h, i + 1)
 AsIfNeverHappened == Canon(st) = Canon(Replay(EmptySchema, hist, 1))
 
-Emit == Len(hist) = MaxLoads => PrintT("@@VEC " \o ToJson([hist |-> hist]))
+Emit == Len(hist) = npre + MaxLoads => PrintT("@@VEC " \o ToJson([hist |-> hist]))
 =============================================================================
